@@ -71,6 +71,7 @@ LOG2 = z3.Function("log2", _R, _R)
 SQRT = z3.Function("sqrt", _R, _R)
 PHI = z3.Function("Phi", _R, _R)
 UF_NAMES = ("exp2", "log2", "sqrt", "Phi")
+_EXP2_POINTS = (-30, -20, -10, -6, -4, -3, -2, -1, 0, 1, 2, 3, 4, 6, 10, 20, 30)
 
 
 def _frac(x):
@@ -822,6 +823,7 @@ class SymCtx:
 
     def __init__(self, query_timeout_ms=10000, max_paths=20000, wall_s=600.0, max_depth=4000, known=None):
         self.solver = z3.Solver()
+        self.query_timeout_ms = query_timeout_ms
         self.solver.set("timeout", query_timeout_ms)
         self.stack = []
         self.cache = {}
@@ -849,7 +851,8 @@ class SymCtx:
         self.next_model = None
         self._empty_model = None
         self.record_paths = True
-        self.max_recorded_paths = 400
+        self.max_recorded_paths = 60
+        self.record_stride = 5
 
     # -- solver plumbing --------------------------------------------------
     def _check(self, *extra):
@@ -1094,6 +1097,12 @@ class SymCtx:
                 lo, hi = _enclose_exp2(c)
                 lem.append(app >= realval(lo))
                 lem.append(app <= realval(hi))
+            else:
+                # exact values at integer points keep models realistic
+                for kpt in _EXP2_POINTS:
+                    pv = realval(Fraction(2) ** kpt)
+                    lem.append((arg < kpt) == (app < pv))
+                    lem.append((arg == kpt) == (app == pv))
             # relation to log2 terms: exp2(log2(u)) = u is added on the log2 side
         elif lemma == "log2":
             lem.append(z3.Implies(arg > 0, EXP2(app) == arg))
@@ -1201,7 +1210,7 @@ class SymCtx:
         # sat: a candidate counterexample.  Separate listed findings from others.
         applicable = self._known_for(label)
         if not applicable:
-            self._candidate(label, m, info, None)
+            self._candidate(label, m, info, None, [neg])
             return
         preds = []
         for fid, expr in applicable:
@@ -1213,18 +1222,20 @@ class SymCtx:
             extra = [neg] + ([nk.t] if isinstance(nk, Sym) else [])
             r2, m2 = self._check(*extra)
             if r2 == z3.sat:
-                self._candidate(label, m2, info, None)
+                self._candidate(label, m2, info, None, extra)
             elif r2 != z3.unsat:
                 self.inconclusive.append({"label": label, "why": "solver unknown on obligation (unlisted part)"})
         for fid, p in preds:
             if isinstance(p, Sym):
+                ex3 = [neg, p.t]
                 r3, m3 = self._check(neg, p.t)
             elif p:
+                ex3 = [neg]
                 r3, m3 = r, m
             else:
                 continue
             if r3 == z3.sat:
-                self._candidate(label, m3, info, fid)
+                self._candidate(label, m3, info, fid, ex3)
             elif r3 != z3.unsat:
                 self.inconclusive.append({"label": label, "why": f"solver unknown on obligation (finding {fid})"})
 
@@ -1237,16 +1248,76 @@ class SymCtx:
         ns = {"inp": self.inputs, "cfg": getattr(self, "config", {}), "And": And, "Or": Or, "Not": Not, "If": If, "Abs": Abs}
         return eval(expr, ns)
 
-    def _candidate(self, label, model, info, finding):
+    def _candidate(self, label, model, info, finding, extra=()):
         if len(self.candidates) >= 40:
             return
+        fm = self.float_model(model, extra)
+        if fm is not None:
+            model = fm
         vals = self.model_inputs(model)
+        alt = self.model_inputs(model, repair=True)
         self.candidates.append(
-            {"label": label, "inputs": vals, "info": info, "finding_hint": finding, "trace": self.trace[-20:]}
+            {"label": label, "inputs": vals, "inputs_alt": alt if alt != vals else None, "info": info, "finding_hint": finding, "trace": self.trace[-20:]}
         )
 
-    def model_inputs(self, model):
-        """Input assignment of a model, as JSON.  A real input that occurs as the
+    def float_model(self, model, extra=(), generic=True):
+        """A model of the path condition (and `extra`) whose real inputs are exactly
+        representable as float64 and, where the path's region allows it, moved
+        off the region's boundary by a small pseudo-random amount: the solver's
+        own models are vertices of the region, i.e. exact rounding ties, on which
+        float64 and real arithmetic may round differently (assumption A1).
+        None when the solver finds no float model quickly."""
+        reals = [x for x in self.inputs.values() if isinstance(x, SymReal)]
+        if not reals:
+            return model
+        try:
+            vals = []
+            exact = True
+            for x in reals:
+                v = model.eval(x.t, model_completion=True)
+                fr = Fraction(_val_to_json(v)) if not z3.is_int_value(v) else Fraction(v.as_long())
+                f = float(fr)
+                exact = exact and Fraction(f) == fr
+                vals.append(f)
+        except (_Unobservable, OverflowError, ValueError):
+            return None
+        self.solver.set("timeout", 1500)
+        try:
+            def pinned(vs):
+                return self._check(*extra, *[x.t == realval(v) for x, v in zip(reals, vs)])
+
+            best = model if exact else None
+            if not exact:
+                r, m = pinned(vals)
+                if r == z3.sat:
+                    best = m
+                else:
+                    r, m = self._check(*extra, *[z3.IsInt(x.t * 4096) for x in reals])
+                    if r != z3.sat:
+                        return None
+                    best = m
+                    vals = [float(Fraction(_val_to_json(m.eval(x.t, model_completion=True)))) for x in reals]
+            if generic and len(reals) <= 16:
+                import random
+
+                rnd = random.Random(self.n_paths * 7919 + len(self.candidates))
+                for i in range(len(reals)):
+                    for scale in (1e-3, -1e-3, 1e-6, -1e-6):
+                        d = scale * (1.0 + abs(vals[i])) * rnd.uniform(0.3, 1.0)
+                        trial = list(vals)
+                        trial[i] = float(vals[i] + d)
+                        r, m = pinned(trial)
+                        if r == z3.sat:
+                            vals, best = trial, m
+                            break
+            return best
+        except (_Unobservable, OverflowError, ValueError):
+            return None
+        finally:
+            self.solver.set("timeout", self.query_timeout_ms)
+
+    def model_inputs(self, model, repair=False):
+        """Input assignment of a model, as JSON.  With repair=True a real input that occurs as the
         argument of the uninterpreted exp2 is *repaired*: it is recomputed as
         log2 of the value the model gives to exp2(input), so that the real 2**x
         of the replay agrees with what the symbolic run assumed (DESIGN.md 2.6)."""
@@ -1255,7 +1326,7 @@ class SymCtx:
         for name, x in self.inputs.items():
             v = model.eval(x.t, model_completion=True)
             vals[name] = _val_to_json(v)
-            if isinstance(x, SymReal) and exp_apps:
+            if repair and isinstance(x, SymReal) and exp_apps:
                 ent = exp_apps.get(x.t.hash())
                 if ent is not None and ent[0].eq(x.t):
                     ev = model.eval(ent[1], model_completion=True)
@@ -1284,14 +1355,21 @@ class SymCtx:
 
     def end_path(self, status):
         self.n_paths += 1
-        if self.record_paths and status == "ok" and len(self.paths) < self.max_recorded_paths:
+        if self.record_paths and status == "ok" and len(self.paths) < self.max_recorded_paths and (self.n_paths <= 12 or self.n_paths % self.record_stride == 0):
             try:
                 m = self._ensure_model()
+                fm = self.float_model(m)
+                if fm is None:
+                    self.n_unreplayable = getattr(self, "n_unreplayable", 0) + 1
+                    return
+                m = fm
                 try:
                     obs = [(n, _eval_obs(v, m)) for n, v in self.obs]
                 except _Unobservable:
                     obs = None
-                self.paths.append({"inputs": self.model_inputs(m), "obs": obs, "claims": self.path_claims})
+                ins = self.model_inputs(m)
+                alt = self.model_inputs(m, repair=True)
+                self.paths.append({"inputs": ins, "inputs_alt": alt if alt != ins else None, "obs": obs, "claims": self.path_claims})
             except (PathAbort, _Unobservable):
                 pass
 
